@@ -88,6 +88,23 @@ def finishImport (st : St) (i : Nat) (x : Inst) (ks' : KS K K String) (id : Stri
 
 def namesOf (m : Mgr K String) : List String := m.addrs.map (fun e => e.2.addr)
 
+/-- impmn: the sentence is identified by its WORDS (strings.Fields); the white-space variant `sp` of the
+    typed sentence does not enter the model -/
+def impmn (st : St) (op is w he hi sp : String) : St × String :=
+    match is.toNat?, he.toNat?, hi.toNat?, sp.toNat? with
+    | some i, some he, some hi, some spn =>
+      let x := getInst st i
+      if !x.opened then (st, "err-closed") else
+      if op ≠ "impmn" || spn > 5 then (st, "bad-op") else
+      if !st.secrets.contains w then (st, "bad-op") else
+      if x.led.vol.best.height ≠ 0 then (st, "unsupported") else
+      match importMnemonic toy x.ks w (privPass w) coin he hi (usedOn x) x.gap (scanFuel x he hi) with
+      | .error e => (st, errTok e ++ "\t" ++ errTok e)
+      | .ok (ks', id) =>
+        let (st', o) := finishImport st i x ks' id
+        (st', o ++ "\t" ++ s!"ok {w}")
+    | _, _, _, _ => (st, "bad-op")
+
 def step (st : St) (args : List String) : St × String :=
   match args with
   | "i" :: is :: rest =>
@@ -246,20 +263,8 @@ def step (st : St) (args : List String) : St × String :=
           let mode := if ((AMap.get x.ks.mgrs a).map (·.hasPriv)).getD false then "priv" else "pub"
           (st, (if toy.pubOf k = p then "ok " ++ mode else "bad-sig") ++ "\t" ++ "ok " ++ mode)
       else (st, "bad-op")
-  | [op, is, w, he, hi] =>
-    match is.toNat?, he.toNat?, hi.toNat? with
-    | some i, some he, some hi =>
-      let x := getInst st i
-      if !x.opened then (st, "err-closed") else
-      if op ≠ "impmn" then (st, "bad-op") else
-      if !st.secrets.contains w then (st, "bad-op") else
-      if x.led.vol.best.height ≠ 0 then (st, "unsupported") else
-      match importMnemonic toy x.ks w (privPass w) coin he hi (usedOn x) x.gap (scanFuel x he hi) with
-      | .error e => (st, errTok e ++ "\t" ++ errTok e)
-      | .ok (ks', id) =>
-        let (st', o) := finishImport st i x ks' id
-        (st', o ++ "\t" ++ s!"ok {w}")
-    | _, _, _ => (st, "bad-op")
+  | [op, is, w, he, hi] => impmn st op is w he hi "0"
+  | [op, is, w, he, hi, sp] => impmn st op is w he hi sp
   | _ => (st, "bad-op")
 
 end MW.Drv.Ks
